@@ -1460,7 +1460,7 @@ func (env *SpecEnv) opaqueCall(sf *SpecFunc, args []Val, rt types.Type) Val {
 					env.errf("ospec %s: footprint reduction failed for %s", sf.Name, k)
 				}
 			}
-			if srt.IsArr() {
+			if srt.IsArr() && vc.boxed() {
 				// array-valued heap arguments are passed boxed (as an Int handle):
 				// the solvers give up early on quantifiers over array-sorted variables
 				box, unbox := vc.boxFns(srt)
@@ -1535,7 +1535,7 @@ built:
 			}
 			ht = mkSelect(ht, Term{inst, SInt})
 		}
-		if ht.Sort.IsArr() {
+		if ht.Sort.IsArr() && vc.boxed() {
 			box, unbox := vc.boxFns(ht.Sort)
 			bx := Term{"(" + box + " " + ht.S + ")", SInt}
 			if env.cur.Sym == nil && !strings.Contains(ht.S, "?") {
@@ -1757,4 +1757,13 @@ func offsetOf(text, v string) (string, bool) {
 		}
 		i = j + 1
 	}
+}
+
+
+// boxed: does this package pass array-valued heap arguments as Int handles
+// ("default heapargs boxed")? Needed where goals mix opaque functions or lemma
+// closures with array-store reasoning; the plain encoding is kept elsewhere
+// because it is what the existing proofs were tuned against.
+func (vc *FuncVC) boxed() bool {
+	return vc.cf != nil && vc.cf.Default.HeapArgs == "boxed"
 }
